@@ -96,14 +96,14 @@ PROPS = {}
 
 PROPS['C01'] = {
     'level': 'proof',
-    'verus_units': ['hashiter', 'bloom', 'cuckoo', 'quotient_exact'],
+    'verus_units': ['hashiter', 'bloom', 'cuckoo', 'quotient_exact', 'compat'],
     'kani': {'quick': HASHITER_K + BLOOM_K + CUCKOO_K + QF_QUICK + QF_UNION_QUICK, 'thorough': HASHITER_K_THOROUGH + QF_THOROUGH + QF_UNION_THOROUGH},
-    'explanation': 'Bloom and Cuckoo: Verus proofs (unbounded in sizes, hashers, eviction outcomes) of exact whole-view contracts on the real insert/query/delete/union text + history lemmas (bits only grow; every class covers its live elements). Quotient filter: Verus proof, unbounded in table size and history (unit quotient_exact): the canonical-layout invariant (ghost per-slot displacement d) is inductive over the real scan / insert_internal / insert / union / clear text; the abstract set mem() is independent of the choice of d (layout uniqueness lemma); query == mem; insert adds exactly the class and keeps every other answer; union Ok => exactly the union of both sets; Err => nothing changes; client step functions state the property over these contracts. The Kani one-step harnesses from EVERY canonical state of a small table remain as counterexample engine. HashSet reference implementation: five delegations to std, not verified.',
+    'explanation': 'Bloom and Cuckoo: Verus proofs (unbounded in sizes, hashers, eviction outcomes) of exact whole-view contracts on the real insert/query/delete/union text + history lemmas (bits only grow; every class covers its live elements). Quotient filter: Verus proof, unbounded in table size and history (unit quotient_exact): the canonical-layout invariant (ghost per-slot displacement d) is inductive over the real scan / insert_internal / insert / union / clear text; the abstract set mem() is independent of the choice of d (layout uniqueness lemma); query == mem; insert adds exactly the class and keeps every other answer; union Ok => exactly the union of both sets; Err => nothing changes; client step functions state the property over these contracts. The Kani one-step harnesses from EVERY canonical state of a small table remain as counterexample engine. HashSet reference implementation (unit compat): the six delegations of src/filters/compat.rs, bodies verbatim inside a re-declared contract trait, proved against the vstd HashSet specifications (insert/contains/len/is_empty/clear); the `extend(iter().cloned())` of union goes through a contract-only stub.',
     'trusted_base': COMMON_TRUST + [HASH_TRUST, INTVEC_TRUST, FBS_TRUST, PANIC_ASSERTS,
                                     'verus/prelude/rng.rs: rand::Rng as an arbitrary-value source (gen_range in [a,b), gen::<bool> arbitrary)',
                                     'HashIterBuilder::setup_f: `(0..k).map(|i| {BODY}).collect()` rewritten to the push loop it denotes (BODY verbatim) and verified; HashIter no-overflow precondition m <= 2^32'],
-    'assumptions': ['BuildHasher is stable (same words -> same hash) and `==` on BuildHashers is structural', 'std::collections::HashSet behaves as documented (compat.rs is not verified)', 'induction over histories is by the re-established invariant inv() (each public operation requires and ensures it); the induction itself is not a mechanised statement'],
-    'not_decided': ['HashSet compat implementation (delegations to std)', 'BloomFilter with m > 2^32 bits (u64 overflow of h1 + i*h2 + f is excluded by precondition)'],
+    'assumptions': ['BuildHasher is stable (same words -> same hash) and `==` on BuildHashers is structural', 'std::collections::HashSet behaves as vstd specifies (obeys_key_model::<T>(), builds_valid_hashers::<S>() assumed); T::clone returns an equal value; `extend(other.iter().cloned())` = union (contract-only stub)', 'induction over histories is by the re-established invariant inv() (each public operation requires and ensures it); the induction itself is not a mechanised statement'],
+    'not_decided': ['BloomFilter with m > 2^32 bits (u64 overflow of h1 + i*h2 + f is excluded by precondition)'],
 }
 
 PROPS['C02'] = {
@@ -283,7 +283,7 @@ def _mt(text, note, technique):
 
 MANIFEST_TEXT = {
     'C01': _mt('Unbounded Verus proofs for all three filters: Bloom + Cuckoo whole-view insert/query/delete/union contracts plus history lemmas; Quotient: canonical-layout invariant inductive over the real scan/insert_internal/union/clear, query == abstract membership, insert/union add exactly and lose nothing. Kani harnesses as counterexample engine.',
-               'Trusted: hashing model (stable BuildHasher), IntVector/FixedBitSet/VecDeque stubs, HashIter::setup_f rewrite; HashSet compat (five delegations to std) not verified; induction over histories is by re-established invariants.',
+               'Trusted: hashing model (stable BuildHasher), IntVector/FixedBitSet/VecDeque stubs, HashIter::setup_f rewrite; HashSet compat proved against the vstd HashSet specs (extend/cloned stubbed); induction over histories is by re-established invariants.',
                'Verus contracts on extracted real functions (unbounded) + Kani contract harnesses (counterexample engine)'),
     'C02': _mt('Unbounded Verus proofs of add_n/add/query_point/merge/clear/is_empty/constructor on the real text (all w, d, counter types, hashers) plus the history lemma; Kani harnesses as counterexample engine.',
                'Trusted: hashing model, the Counter contract trait standing for the num_traits bounds, iterator chains rewritten to the loops they denote (std iterator semantics), overflow panics excluded by precondition.',
